@@ -125,3 +125,114 @@ V("alg-benign-elif", ["C17"], A, "benign",
 V("alg-benign-extra-fold", ["C17"], A, "benign",
   (LN, "        if isinstance(self, Neg):\n            return Sub(other, self.arg)\n        return Add(other, self)", "        if isinstance(self, Neg):\n            return Sub(other, self.arg)\n        if isinstance(other, Neg):\n            return Sub(self, other.arg)\n        return Add(other, self)"))
 V("opt-benign-rename", ["C17"], A, "benign", (OPT, "                dependency = check_dependency(arg, inner_loop.index)\n                if not dependency:\n", "                dep = check_dependency(arg, inner_loop.index)\n                if dep is False:\n"))
+
+# ---- C12 / C13 -------------------------------------------------------------------------------------
+ET = "ffcx/ir/elementtables.py"
+IRI = "ffcx/ir/integral.py"
+IG = "ffcx/codegeneration/integral_generator.py"
+EG = "ffcx/codegeneration/expression_generator.py"
+SYM = "ffcx/codegeneration/symbols.py"
+NAM = "ffcx/naming.py"
+REP = "ffcx/ir/representation.py"
+RU = "ffcx/ir/representationutils.py"
+FAC = "ffcx/ir/analysis/factorization.py"
+CG = "ffcx/codegeneration/codegeneration.py"
+D = ["ORDER-TAINT", "HISTORY-ID", "GLOBAL-STATE"]
+V("det-fe-numbering-set", ["C12"], D, "fire",
+  (ET, "        list(dict.fromkeys(ufl.algorithms.analysis.extract_sub_elements(all_elements)))", "        set(ufl.algorithms.analysis.extract_sub_elements(all_elements))"))
+V("det-active-tables-unsorted", ["C12"], D, "fire", (IRI, "    for name in sorted(active_table_names):", "    for name in active_table_names:"))
+V("det-section-inputs-set", ["C12"], D, "fire", (OPT, "    input = list(dict.fromkeys(input))", "    input = list(set(input))"))
+V("det-block-inputs-set", ["C12"], D, "fire", (IG, "        input = list(dict.fromkeys(input))", "        input = list(set(input))"))
+V("det-geometry-tables-unsorted", ["C12"], D, "fire", (EG, "            for c in sorted(cell_list):", "            for c in cell_list:"))
+V("det-jacobian-ufl-id", ["C12", "C13"], D, "fire",
+  (SYM, "        return L.Symbol(format_mt_name(f\"J{number}\", mt), dtype=L.DataType.REAL)", "        return L.Symbol(format_mt_name(f\"J{domain.ufl_id()}\", mt), dtype=L.DataType.REAL)"))
+V("det-temp-symbol-id", ["C12"], D, "fire",
+  (IG, "        name = f\"{basename}{self.symbol_counters[basename]:d}\"\n        self.symbol_counters[basename] += 1\n        return L.Symbol(name, dtype=L.DataType.SCALAR)\n\n    def get_temp_symbol",
+       "        name = f\"{basename}{id(self) % 1000:d}\"\n        self.symbol_counters[basename] += 1\n        return L.Symbol(name, dtype=L.DataType.SCALAR)\n\n    def get_temp_symbol"))
+V("det-noargs-mutated", ["C12"], D, "fire",
+  (FAC, "                graph_insert(F, v)\n                factors = noargs\n", "                graph_insert(F, v)\n                factors = noargs\n                noargs[si] = v\n"))
+V("det-codeblocks-set-of-names", ["C12"], D, "fire",
+  (CG, "        for domain in set(i[0] for i in integral_ir.expression.integrand.keys())", "        for domain in set(i[0].name for i in integral_ir.expression.integrand.keys())"))
+V("det-mutable-default-mutated", ["C12"], D, "fire",
+  (JIT, "    p = ffcx.options.get_options(options)\n\n    # If requested, replace bi-linear forms by their diagonal part", "    options[\"seen\"] = True\n    p = ffcx.options.get_options(options)\n\n    # If requested, replace bi-linear forms by their diagonal part"))
+V("det-benign-sorted-set", ["C12"], D, "benign", (OPT, "    input = list(dict.fromkeys(input))", "    input = sorted(set(input), key=lambda s: s.name)"))
+V("det-benign-set-membership", ["C12"], D, "benign",
+  (IG, "        # Make sure we don't have repeated symbols in input (keeping order:", "        _seen = set(input)\n        assert len(_seen) <= len(input)\n        # Make sure we don't have repeated symbols in input (keeping order:"))
+V("det-benign-set-to-set", ["C12"], D, "benign",
+  (IRI, "    active_tables: dict[str, npt.NDArray[np.float64]] = {}\n", "    _referenced = set()\n    for _n in active_table_names:\n        _referenced.add(_n)\n    active_tables: dict[str, npt.NDArray[np.float64]] = {}\n"))
+
+S = ["ORDER-TAINT", "HISTORY-ID", "SIG-COMPLETE", "SIG-INJECTIVE", "NAME-KEY", "DIGEST-WIDTH"]
+V("sig-drop-version", ["C13"], S, "fire", (NAM, "        str(ffcx.__version__),\n", ""))
+V("sig-drop-tag", ["C13"], S, "fire", (NAM, "        kind,\n        tag,\n    ]", "        kind,\n    ]"))
+V("sig-drop-header-hash", ["C13"], S, "fire", (NAM, "        ffcx.codegeneration.get_signature(),\n", ""))
+V("sig-repr-points", ["C13"], S, "fire",
+  (NAM, "            object_signature += str(_points.shape)\n            object_signature += hashlib.sha1(_points.tobytes()).hexdigest()\n", "            object_signature += repr(_points)\n"))
+V("sig-points-no-shape", ["C13"], S, "fire", (NAM, "            object_signature += str(_points.shape)\n", ""))
+V("sig-no-domain-renumbering", ["C13"], S, "fire", (NAM, "            rn.update(dict((d, i) for i, d in enumerate(domains)))\n", ""))
+V("sig-options-subset", ["C13"], S, "fire",
+  (JIT, "    return str(sorted(options.items()))", "    return str(sorted((k, v) for k, v in options.items() if k != \"table_atol\"))"))
+V("sig-no-compile-args", ["C13"], S, "fire",
+  (JIT, "        _compute_option_signature(p) + _compilation_signature(cffi_extra_compile_args, cffi_debug),\n    )\n\n    form_names", "        _compute_option_signature(p),\n    )\n\n    form_names"))
+V("sig-truncated", ["C13"], S, "fire", (NAM, "    return hashlib.sha1(string.encode(\"utf-8\")).hexdigest()", "    return hashlib.sha1(string.encode(\"utf-8\")).hexdigest()[:8]"))
+V("sig-integral-name-no-index", ["C13", "C19"], S, "fire", (REP, "                prefix,\n                itg_index,\n            )", "                prefix,\n            )"))
+V("sig-rule-id-3", ["C13", "C19"], S, "fire", (RU, "        return self.hash_obj.hexdigest()[-10:]", "        return self.hash_obj.hexdigest()[-3:]"))
+V("sig-extract-type-set", ["C13"], S, "fire",
+  (NAM, "            for gc in ufl.corealg.traversal.unique_pre_traversal(expr):\n                if isinstance(gc, ufl.classes.GeometricQuantity):\n                    domains.append(*ufl.domain.extract_domains(gc))",
+        "            for gc in ufl.algorithms.analysis.extract_type(expr, ufl.classes.GeometricQuantity):\n                domains.append(*ufl.domain.extract_domains(gc))"))
+V("sig-benign-local-copy", ["C13"], S, "benign", (JIT, "    return str(sorted(options.items()))", "    opts = dict(options)\n    return str(sorted(opts.items()))"))
+V("sig-benign-tolist", ["C13"], S, "benign",
+  (NAM, "            object_signature += hashlib.sha1(_points.tobytes()).hexdigest()\n", "            object_signature += str(_points.tolist())\n"))
+
+# ---- C19 -------------------------------------------------------------------------------------------
+R = ["FAIL-CLOSED", "CLOSED-DOMAINS", "STALE-LOOPVAR", "STMT-TERM", "NAME-KEY", "DIGEST-WIDTH", "PAIR-TEMPLATES"]
+V("rob-ufl-to-lnodes-default", ["C19"], R, "fire",
+  (LN, "    else:\n        raise RuntimeError(f\"Missing lookup for expr type {optype}.\")", "    else:\n        return LiteralFloat(0.0)"))
+V("rob-reconstruct-fallthrough", ["C19"], R, "fire",
+  (REC := "ffcx/ir/analysis/reconstruct.py", "        # Nothing found\n        raise RuntimeError(f\"Not expecting expression of type {type(o)} in here.\")", "        # Nothing found\n        return [o]"))
+V("rob-access-get-none", ["C19"], R, "fire",
+  ("ffcx/codegeneration/access.py", "        else:\n            raise RuntimeError(f\"Not handled: {type(e)}\")", "        else:\n            return None"))
+V("rob-definitions-no-handler", ["C19"], R, "fire",
+  ("ffcx/codegeneration/definitions.py", "        if handler is None:\n            raise NotImplementedError(f\"No handler for terminal type: {ttype}\")\n", "        if handler is None:\n            return []\n"))
+V("rob-write-table-default", ["C19"], R, "fire",
+  ("ffcx/codegeneration/geometry.py", "    raise ValueError(f\"Unknown geometry table name: {tablename}\")", "    return facet_orientation(tablename, cellname)"))
+V("rob-entity-type-missing", ["C19", "C02"], R, "fire",
+  (SYM, "        elif entity_type == \"ridge\":\n            return self.entity_local_index[0]\n", ""))
+V("rob-entity-table-wrong", ["C19", "C02"], R, "fire", (REP, "        \"interior_facet\": \"facet\",", "        \"interior_facet\": \"cell\","))
+V("rob-stale-table", ["C19"], R, "fire",
+  (ET, "                    else:\n                        raise RuntimeError(\n                            f\"Facet quadrature permutations are not supported for cell {cell_type}.\"\n                        )\n", ""))
+V("rob-stale-new-branch", ["C19"], R, "fire",
+  (ET, "        if is_new_table:\n            _existing_tables[name] = tbl\n", "        if is_new_table:\n            _existing_tables[name] = tbl\n            first_name = name\n        if avg:\n            name = first_name\n"))
+V("rob-carried-cell-type", ["C19", "C11"], R, "fire",
+  (REP, "        for rule_cell_type, (points, weights, tensor_factors) in rules.items():\n            points = np.asarray(points)\n            weights = np.asarray(weights)\n            rule = QuadratureRule(points, weights, tensor_factors)\n\n            if rule_cell_type not in grouped_integrands:\n                grouped_integrands[rule_cell_type] = {}\n            if rule not in grouped_integrands[rule_cell_type]:\n                grouped_integrands[rule_cell_type][rule] = []\n            grouped_integrands[rule_cell_type][rule].append(integral.integrand())",
+        "        for cell_type, (points, weights, tensor_factors) in rules.items():\n            points = np.asarray(points)\n            weights = np.asarray(weights)\n            rule = QuadratureRule(points, weights, tensor_factors)\n\n            if cell_type not in grouped_integrands:\n                grouped_integrands[cell_type] = {}\n            if rule not in grouped_integrands[cell_type]:\n                grouped_integrands[cell_type][rule] = []\n            grouped_integrands[cell_type][rule].append(integral.integrand())"))
+V("rob-benign-match-default", ["C19"], R, "benign",
+  (LN, "    else:\n        raise RuntimeError(f\"Missing lookup for expr type {optype}.\")", "    else:\n        msg = f\"Missing lookup for expr type {optype}.\"\n        raise RuntimeError(msg)"))
+V("rob-benign-loop-temp", ["C19"], R, "benign",
+  (ET, "        # Clean up table\n        tbl = clamp_table_small_numbers(t[\"array\"], rtol=rtol, atol=atol)", "        # Clean up table\n        raw = t[\"array\"]\n        if codim == 0:\n            raw = raw.copy()\n        tbl = clamp_table_small_numbers(raw, rtol=rtol, atol=atol)"))
+
+# ---- C20 -------------------------------------------------------------------------------------------
+MAINP = "ffcx/main.py"
+OPTS = "ffcx/options.py"
+CL = ["OPT-PRECEDENCE", "CLI-SENTINEL", "PAIR-TEMPLATES", "SUFFIX-ARITY", "SINGLE-PIPELINE", "ALIAS-NAMES"]
+V("cli-update-order", ["C20"], CL, "fire",
+  (OPTS, "    options.update(user_options)\n    options.update(pwd_options)\n", "    options.update(pwd_options)\n    options.update(user_options)\n"))
+V("cli-priority-first", ["C20"], CL, "fire",
+  (OPTS, "    options.update(user_options)\n    options.update(pwd_options)\n    if priority_options is not None:\n        options.update(priority_options)\n",
+         "    if priority_options is not None:\n        options.update(priority_options)\n    options.update(user_options)\n    options.update(pwd_options)\n"))
+V("cli-load-order-swapped", ["C20"], CL, "fire", (OPTS, "    return (user_options, pwd_options)", "    return (pwd_options, user_options)"))
+V("cli-store-true-default", ["C20"], CL, "fire", (MAINP, "            action=\"store_true\",\n            default=None,\n", "            action=\"store_true\",\n"))
+V("cli-filter-removed", ["C20"], CL, "fire",
+  (MAINP, "    priority_options = {k: v for k, v in xargs.__dict__.items() if v is not None}", "    priority_options = dict(xargs.__dict__)"))
+V("cli-extern-without-definition", ["C20", "C19"], CL, "fire",
+  ("ffcx/codegeneration/C/form_template.py", "// Alias name\nufcx_form* {name_from_uflfile} = &{factory_name};\n", "// Alias name\n"))
+V("cli-alias-from-index", ["C20"], CL, "fire",
+  (REP, "    form_name = object_names.get(id(form_data.original_form), form_id)", "    form_name = object_names.get(id(form_data), form_id)"))
+V("cli-header-name-mismatch", ["C20"], CL, "fire",
+  ("ffcx/codegeneration/C/expression.py", "        factory_name=factory_name, name_from_uflfile=ir.name_from_uflfile\n    )", "        factory_name=factory_name, name_from_uflfile=ir.expression.name\n    )"))
+V("cli-numba-two-files", ["C20", "C18"], CL, "fire", ("ffcx/codegeneration/numba/file.py", "suffixes = (\"_numba.py\",)", "suffixes = (\".h\", \"_numba.py\")"))
+V("cli-codeblocks-order", ["C20"], CL, "fire",
+  (CG, "    file_pre: list[tuple[str, str]]\n    integrals: list[tuple[str, str]]\n    forms: list[tuple[str, str]]\n", "    file_pre: list[tuple[str, str]]\n    forms: list[tuple[str, str]]\n    integrals: list[tuple[str, str]]\n"))
+V("cli-generator-swapped-return", ["C20"], CL, "fire", ("ffcx/codegeneration/C/integral.py", "    return declaration, implementation", "    return implementation, declaration"))
+V("cli-benign-vars", ["C20"], CL, "benign",
+  (MAINP, "    priority_options = {k: v for k, v in xargs.__dict__.items() if v is not None}", "    priority_options = {k: v for k, v in vars(xargs).items() if v is not None}"))
+V("cli-benign-comment", ["C20"], CL, "benign", (OPTS, "    options.update(user_options)\n", "    # user file first\n    options.update(user_options)\n"))
